@@ -112,6 +112,8 @@ EXPORT errno_t _memmove32_s_chk(uint32_t *dest, rsize_t dmax,
     if (srcbos == BOS_UNKNOWN) {
         BND_CHK_PTR_BOUNDS(src, smax);
     } else if (unlikely(smax > srcbos)) {
+        mem_prim_set(dest, dmax, 0);
+        MEMORY_BARRIER;
         invoke_safe_mem_constraint_handler("memmove32_s: slen exceeds src",
                                            (void *)src, EOVERFLOW);
         return (RCNEGATE(EOVERFLOW));
